@@ -160,4 +160,47 @@ def holds (ins : List (InKind × Nat)) (est real : Option Nat) : Bool :=
   | none, some _ => false   -- estimator unusable for a buildable transaction
   | some _, none => true    -- nothing was built, nothing undershot
 
+/-! ## Whole-flow shapes: the fee estimators of pkg/tbtcpg vs the transactions pkg/tbtc assembles
+
+* `estimateDepositsSweepFee` (tbtcpg/deposit_sweep.go): 1 P2WPKH input + n P2WSH inputs with the
+  worst-case deposit script + 1 P2WPKH output; the real sweep has an optional main UTXO and
+  P2WSH deposits whose scripts have the plain or the extra-data length;
+* `EstimateRedemptionFee` (tbtcpg/redemptions.go): 1 P2WPKH input, change + one output per
+  redeemer script; the real transaction has the change only when it is positive;
+* `EstimateMovingFundsFee`, `EstimateMovedFundsSweepFee`: same shape as the real transaction.
+-/
+
+abbrev depScriptMax : Nat := Gen.C30.depositScriptByteSize
+abbrev depScriptLen : Nat := Gen.C30.depositScriptLen
+abbrev depScriptExtraLen : Nat := Gen.C30.depositScriptExtraLen
+
+def optSig : Option Nat → List (InKind × Nat)
+  | none => []
+  | some s => [(.wpkh, s)]
+
+def depIn (d : Bool × Nat) : InKind × Nat :=
+  (.wsh (if d.1 then depScriptExtraLen else depScriptLen) false, d.2)
+
+def sweepEst (n : Nat) : Nat :=
+  vsize (estShape (.wpkh :: List.replicate n (.wsh depScriptMax false)) [.wpkh])
+
+/-- `main` = signature length of the main UTXO input if the wallet has one;
+    `deps` = per deposit (has extra data, signature length). -/
+def sweepReal (main : Option Nat) (deps : List (Bool × Nat)) : Nat :=
+  vsize (realShape (optSig main ++ deps.map depIn) [.wpkh])
+
+def redeemEst (outs : List OutKind) : Nat := vsize (estShape [.wpkh] (.wpkh :: outs))
+
+def redeemReal (sig : Nat) (change : Bool) (outs : List OutKind) : Nat :=
+  vsize (realShape [(.wpkh, sig)] (if change then .wpkh :: outs else outs))
+
+def moveEst (n : Nat) : Nat := vsize (estShape [.wpkh] (List.replicate n .wpkh))
+def moveReal (sig n : Nat) : Nat := vsize (realShape [(.wpkh, sig)] (List.replicate n .wpkh))
+
+def msweepEst (hasMain : Bool) : Nat :=
+  vsize (estShape (if hasMain then [.wpkh, .wpkh] else [.wpkh]) [.wpkh])
+
+def msweepReal (moved : Nat) (main : Option Nat) : Nat :=
+  vsize (realShape ((.wpkh, moved) :: optSig main) [.wpkh])
+
 end KeepVerif.C30
